@@ -476,33 +476,37 @@ def expr_eq(facts, a, b):
         return expr_eq(facts, a['e'], b['e'])
     return False
 
-def _cmp_facts(cond, truth, out):
-    """Comparisons known to hold when `cond` evaluates to `truth`: (l, op, r) with op in Lt Le Gt Ge Eq Ne."""
+def _cmp_facts(cond, truth, out, atoms=None):
+    """Comparisons known to hold when `cond` evaluates to `truth`: (l, op, r) with op in Lt Le Gt Ge Eq Ne.  With `atoms`, the other
+    boolean leaves whose value follows are collected too, as (expression, truth)."""
     if cond['k'] == 'Binary':
         op = cond['op']
         if op == 'And' and truth:
-            _cmp_facts(cond['l'], True, out); _cmp_facts(cond['r'], True, out)
+            _cmp_facts(cond['l'], True, out, atoms); _cmp_facts(cond['r'], True, out, atoms)
         elif op == 'Or' and not truth:
-            _cmp_facts(cond['l'], False, out); _cmp_facts(cond['r'], False, out)
+            _cmp_facts(cond['l'], False, out, atoms); _cmp_facts(cond['r'], False, out, atoms)
         elif op in ('Lt', 'Le', 'Gt', 'Ge', 'Eq', 'Ne'):
             neg = {'Lt': 'Ge', 'Le': 'Gt', 'Gt': 'Le', 'Ge': 'Lt', 'Eq': 'Ne', 'Ne': 'Eq'}
             out.append((cond['l'], op if truth else neg[op], cond['r']))
     elif cond['k'] == 'Unary' and cond.get('op') == 'Not':
-        _cmp_facts(cond['e'], not truth, out)
+        _cmp_facts(cond['e'], not truth, out, atoms)
+    elif atoms is not None and cond['k'] in ('MethodCall', 'Call'):
+        atoms.append((cond, truth))
 
-def known_comparisons(B, node):
+def known_comparisons(B, node, atoms=None):
     """Comparisons that hold whenever `node` is evaluated: enclosing if-branches and earlier early-exit guards
-    (`if c { return / break / continue / panic }` without else) in the enclosing blocks."""
+    (`if c { return / break / continue / panic }` without else) in the enclosing blocks.  With `atoms`: also the boolean calls
+    (`x.is_empty()`) whose value is fixed there, as (call node, truth)."""
     out = []
     ctx = B.context(node)
     chain = [a for a, _r in ctx] + [node]
     for i, (anc, role) in enumerate(ctx):
         child = chain[i + 1]
         if anc['k'] == 'If' and role in ('then', 'els'):
-            _cmp_facts(anc['cond'], role == 'then', out)
+            _cmp_facts(anc['cond'], role == 'then', out, atoms)
         elif anc['k'] == 'Binary' and anc.get('op') in ('And', 'Or') and role == 'r':
             # short circuit: the right operand of `&&` is evaluated only when the left one holds, that of `||` only when it does not
-            _cmp_facts(anc['l'], anc['op'] == 'And', out)
+            _cmp_facts(anc['l'], anc['op'] == 'And', out, atoms)
         elif anc['k'] == 'Block':
             for s in anc['stmts']:
                 e = s.get('e') if s['k'] in ('Expr', 'Semi') else s.get('init')
@@ -511,7 +515,7 @@ def known_comparisons(B, node):
                 if e is not None and any(x is child for x, _ in _walk(e)):
                     break
                 if s['k'] in ('Expr', 'Semi') and e['k'] == 'If' and e.get('els') is None and _hirq.diverges(e['then']):
-                    _cmp_facts(e['cond'], False, out)
+                    _cmp_facts(e['cond'], False, out, atoms)
     return out
 
 def _mutated(B, e):
@@ -823,7 +827,8 @@ def guarded_index(facts, body_path, sp):
     def is_len_of_x(e):
         e = _hirq.peel_refs(e)
         return e['k'] == 'MethodCall' and e['name'] == 'len' and not e['args'] and expr_eq(facts, e['recv'], x)
-    for a, o, b in known_comparisons(B, ix):
+    atoms = []
+    for a, o, b in known_comparisons(B, ix, atoms):
         for (p, oo, q) in ((a, o, b), (b, flip[o], a)):
             if not is_len_of_x(p):
                 continue
@@ -832,6 +837,10 @@ def guarded_index(facts, body_path, sp):
                 continue
             if (oo == 'Eq' and m > k) or (oo == 'Gt' and m >= k) or (oo == 'Ge' and m > k) or (oo == 'Ne' and m == 0 and k == 0):
                 return 'guarded: a comparison that holds at the indexing gives len > %d' % k
+    if k == 0:
+        for c, truth in atoms:
+            if not truth and c['k'] == 'MethodCall' and c['name'] == 'is_empty' and not c['args'] and expr_eq(facts, c['recv'], x):
+                return 'guarded: `is_empty()` of the same vector is false at the indexing (the branch not taken by `if x.is_empty()`)'
     return None
 
 def guarded_split(facts, body_path, sp):
